@@ -10,6 +10,7 @@ use std::io::Seek;
 use std::io::Write;
 use std::path::PathBuf;
 use std::time::Duration;
+use std::time::Instant;
 
 use anyhow::Context;
 use anyhow::Result;
@@ -111,6 +112,7 @@ impl Runner for SubprocessRunner {
         }
 
         // constraint max execution time?
+        let started = Instant::now();
         let mut comm = process.communicate_start(Some(input.as_bytes().to_vec()));
         if let Some(timeout) = testcase.config.timeout {
             comm = comm.limit_time(timeout);
@@ -125,11 +127,28 @@ impl Runner for SubprocessRunner {
         // wait for the process to finish and handle the result
         let (stdout, stderr, exit_code) = match comm.read() {
             // successs! we are happy!
-            Ok((stdout, stderr)) => (
-                stdout,
-                stderr,
-                process.wait().context("capture process exit")?.into(),
-            ),
+            Ok((stdout, stderr)) => {
+                // the process may have closed its output streams and still be running:
+                // the timeout applies to waiting for it to end just the same
+                let status = match testcase.config.timeout {
+                    Some(timeout) => process
+                        .wait_timeout(timeout.saturating_sub(started.elapsed()))
+                        .context("capture process exit")?,
+                    None => Some(process.wait().context("capture process exit")?),
+                };
+                match status {
+                    Some(status) => (stdout, stderr, status.into()),
+                    None => {
+                        let _ = process.kill();
+                        let _ = process.wait();
+                        (
+                            stdout,
+                            stderr,
+                            OutputExitStatus::Timeout(testcase.config.timeout.unwrap_or_default()),
+                        )
+                    }
+                }
+            }
 
             // bummer, a sad thing happened
             Err(err) => {
